@@ -17,8 +17,9 @@ Vec(kind, n, fault, role) ==
      nodes |-> [i \in 1..n |-> [name |-> NodeName(i), fits |-> (IF kind = "cleanup" THEN "-" ELSE "A,B"), csel |-> TRUE, zone |-> "z1", taint |-> FALSE, override |-> "none", group |-> ""]],
      eds |-> [tmpl |-> "B", ruPaused |-> FALSE, frozen |-> FALSE, cPaused |-> "", cUnpaused |-> "", cValid |-> "",
               active |-> (IF role = "canary" THEN "A" ELSE "B"), canary |-> (IF role = "canary" THEN "B" ELSE ""),
-              \* canary role: creations / update deletions happen on the canary nodes (all n of them); the clean-up variant has no canary node
-              cNodes |-> (IF role = "canary" /\ kind # "cleanup" THEN [i \in 1..n |-> NodeName(i)] ELSE <<>>), desired |-> n, state |-> "Running"],
+              \* canary role: creations / update deletions / clean-ups (pods on canary nodes the template no longer fits) happen on the
+              \* canary nodes - all n of them (the canary role ignores every other node)
+              cNodes |-> (IF role = "canary" THEN [i \in 1..n |-> NodeName(i)] ELSE <<>>), desired |-> n, state |-> "Running"],
      rs |-> << [tmpl |-> "A", age |-> 9, status |-> "unknown", counters |-> <<0, 0, 0, 0>>, conds |-> <<>>],
                [tmpl |-> "B", age |-> 6, status |-> "active", counters |-> <<n, 0, 0, 0>>,
                 conds |-> << [type |-> "Active", true |-> TRUE, ltt |-> 4, lut |-> 4], [type |-> "LastFullSync", true |-> TRUE, ltt |-> 6, lut |-> 2] >>] >>,
